@@ -20,5 +20,6 @@ def run(chk):
     clones.rule_tables(chk, 'N5', ('hash',), floor=20)
     from . import twins
     twins.rule_common_flag(chk, P, 'Z1', floor=6)
+    twins.rule_wrapper_constants(chk, P, 'X3', floor=150)
     from . import padding
     padding.rule_sha_padding(chk, P)
